@@ -71,15 +71,16 @@ Section Props.
     {| sg_path := path; sg_iface := props_name; sg_member := B "PropertiesChanged";
        sg_body := [VS (iname i); VP changed; VL inval] |}.
 
-  Record setres := { sr_log : list logent; sr_reply : reply; sr_vals : list (bytes * val); sr_signals : list sigmsg }.
+  (* sr_vals = Some vals: the setter ran and stored; None: the fields are untouched *)
+  Record setres := { sr_log : list logent; sr_reply : reply; sr_vals : option (list (bytes * val)); sr_signals : list sigmsg }.
 
   Definition do_set (path : bytes) (i : inst) (p : pdesc) (sent : val) : setres :=
     match convert (pd_ty p) sent with
-    | None => {| sr_log := []; sr_reply := RErr EZBus None; sr_vals := in_vals i; sr_signals := [] |}
+    | None => {| sr_log := []; sr_reply := RErr EZBus None; sr_vals := None; sr_signals := [] |}
     | Some v =>
         let lg := [LSet (in_tag i) (pd_name p) v] in
         match (if pd_sfall p then bh_sfail bh (iname i) (pd_name p) v else None) with
-        | Some (e, m) => {| sr_log := lg; sr_reply := RErr e (Some m); sr_vals := in_vals i; sr_signals := [] |}
+        | Some (e, m) => {| sr_log := lg; sr_reply := RErr e (Some m); sr_vals := None; sr_signals := [] |}
         | None =>
             let vals' := set_val (pd_name p) v (in_vals i) in
             let i' := {| in_desc := in_desc i; in_tag := in_tag i; in_vals := vals' |} in
@@ -88,13 +89,13 @@ Section Props.
                 (* `<prop>_changed`: calls the getter again; its failure becomes the Set's error *)
                 match run_getter i' p with
                 | GOk nv => {| sr_log := lg ++ [LGet (in_tag i) (pd_name p)]; sr_reply := RRet [];
-                               sr_vals := vals'; sr_signals := [changed_signal path i [(pd_name p, content nv)] []] |}
+                               sr_vals := Some vals'; sr_signals := [changed_signal path i [(pd_name p, content nv)] []] |}
                 | _ => {| sr_log := lg ++ [LGet (in_tag i) (pd_name p)]; sr_reply := RErr EZBus None;
-                          sr_vals := vals'; sr_signals := [] |}
+                          sr_vals := Some vals'; sr_signals := [] |}
                 end
-            | EInval => {| sr_log := lg; sr_reply := RRet []; sr_vals := vals';
+            | EInval => {| sr_log := lg; sr_reply := RRet []; sr_vals := Some vals';
                            sr_signals := [changed_signal path i [] [pd_name p]] |}
-            | _ => {| sr_log := lg; sr_reply := RRet []; sr_vals := vals'; sr_signals := [] |}
+            | _ => {| sr_log := lg; sr_reply := RRet []; sr_vals := Some vals'; sr_signals := [] |}
             end
         end
     end.
@@ -154,7 +155,10 @@ Section Props.
         let run p :=
           let r := do_set path i p sent in
           {| pr_log := sr_log r; pr_reply := sr_reply r; pr_signals := sr_signals r;
-             pr_root := upd_at root (segs_of path) (iname i) (sr_vals r) |} in
+             pr_root := match sr_vals r with
+                        | Some vals => upd_at root (segs_of path) (iname i) vals
+                        | None => root
+                        end |} in
         match gen_set (in_desc i) pname with
         | DNotFound => {| pr_log := []; pr_reply := RErr EUnknownProperty None; pr_signals := []; pr_root := root |}
         | DAsync p => run p
